@@ -3,8 +3,9 @@
    delta_empty) and therefore the same candidates, optimum and gamma; annotator permutation leaves every tuple's disorder unchanged because it is
    a sum over unordered annotator pairs of a symmetric function; scaling delta_empty by k multiplies every cost and the cut by k.
    Proofs in theories/Dissim/Proofs.v and theories/Align/InvarProofs.v. *)
-From Coq Require Import List Arith ZArith QArith Bool Permutation.
+From Coq Require Import String List Arith ZArith QArith Qabs Bool Permutation Lia.
 From PGA Require Import Dissim.Model Dissim.Proofs Align.Tuples Align.Cover Align.Inst Align.Invar Align.InvarProofs Align.PermInst Align.PermInstProofs Gamma.GammaK.
+From PGAprops Require Import DissimGen KernelGen.
 Import ListNotations.
 
 (* all times shifted by a constant / multiplied by a positive constant: the positional dissimilarity does not move *)
@@ -69,3 +70,23 @@ Example C09_example :
   (dpos 1 (shift_u 7 (mkUQ 0 4 None)) (shift_u 7 (mkUQ 1 3 None)) == 1 # 9)%Q /\ (dpos 1 (mkUQ 0 4 None) (mkUQ 1 3 None) == 1 # 9)%Q /\
   (gamma_of (2 * (1#2)) (map (Qmult 2) [1; 3]) == 3 # 4)%Q /\ (gamma_of (1#2) [1; 3] == 3 # 4)%Q.
 Proof. vm_compute. repeat split; reflexivity. Qed.
+
+(* ---------------------------------------------------------------------------------------------------------------------------------
+   Tie to the source (re-proved on every run against genprops/DissimGen.v and KernelGen.v, translated from the CURRENT dissimilarity.py): *)
+(* the invariances, stated on the definitions translated from the source (d() of the positional / absolute dissimilarities, the cut) *)
+Theorem C09_src_translation de c u v : (pos_d de (shift_u c u) (shift_u c v) == pos_d de u v)%Q.
+Proof. change (dpos de (shift_u c u) (shift_u c v) == dpos de u v)%Q. exact (dpos_shift de c u v). Qed.
+Theorem C09_src_time_scaling de c u v : (0 < c)%Q -> (pos_d de (scale_u c u) (scale_u c v) == pos_d de u v)%Q.
+Proof. change (0 < c -> dpos de (scale_u c u) (scale_u c v) == dpos de u v)%Q. exact (dpos_scale de c u v). Qed.
+Theorem C09_src_category_renaming f de u v : (forall x y, f x = f y -> x = y) -> (abs_d de (rename_u f u) (rename_u f v) == abs_d de u v)%Q.
+Proof.
+  intros Hf. unfold abs_d. assert (E : cat_eqb (qc (rename_u f u)) (qc (rename_u f v)) = cat_eqb (qc u) (qc v)).
+  { pose proof (dabs_rename f 1 u v Hf) as H. unfold dabs in H.
+    destruct (cat_eqb (qc (rename_u f u)) (qc (rename_u f v))), (cat_eqb (qc u) (qc v)); try reflexivity; discriminate. }
+  rewrite E. reflexivity.
+Qed.
+Theorem C09_src_delta_empty_linear de k u v : (pos_d (k * de) u v == k * pos_d de u v)%Q.
+Proof. change (dpos (k * de) u v == k * dpos de u v)%Q. exact (dpos_linear_de de k u v). Qed.
+(* the cut scales with delta_empty: criterium(k * de, n) = k * criterium(de, n) *)
+Theorem C09_src_cut_scales k de n : criterium_src (k * de) n = (k * criterium_src de n)%Z.
+Proof. unfold criterium_src. cbv zeta. ring. Qed.
